@@ -241,6 +241,8 @@ pub fn special(codec: &str, q: &str, t: &mut Toks) -> Option<R<String>> {
                     }
                 }
             }
+            (_, "derive") => derive_query(t)?,
+            (_, "declsrc") => decl_source(t)?,
             ("dna", "codontable") => codon_table::<Dna>(t)?,
             ("iupac", "codontable") => codon_table::<Iupac>(t)?,
             _ => return Err(Fail::BadOp("nospecial".into())),
@@ -250,4 +252,143 @@ pub fn special(codec: &str, q: &str, t: &mut Toks) -> Option<R<String>> {
         Err(Fail::BadOp(m)) if m == "nospecial" => None,
         other => Some(other),
     })
+}
+
+// ---------------------------------------------------------------------------
+// #[derive(Codec)] through source inclusion: parse_variants / parse_width on a declaration
+
+fn lit_tok(tok: &str) -> R<String> {
+    let (k, v) = tok.split_at(1);
+    let n: u64 = if v.is_empty() { 0 } else { v.parse().map_err(|_| Fail::BadOp("lit".into()))? };
+    Ok(match k {
+        "d" => format!("{n}"),
+        "b" => format!("0b{n:b}"),
+        "x" => format!("0x{n:X}"),
+        "u" => {
+            // binary with underscores, as the built-in codecs write them
+            let s = format!("{n:08b}");
+            format!("0b{}_{}", &s[..4], &s[4..])
+        }
+        "y" => {
+            if (0x20..0x7f).contains(&n) && n != b'\'' as u64 && n != b'\\' as u64 {
+                format!("b'{}'", n as u8 as char)
+            } else {
+                format!("b'\\x{n:02x}'")
+            }
+        }
+        "f" => "1.5".to_string(),
+        "t" => "\"a\"".to_string(),
+        "n" => format!("-{n}"),
+        _ => return Err(Fail::BadOp("lit kind".into())),
+    })
+}
+
+pub fn decl_source(t: &mut Toks) -> R<String> {
+    let bits = t.next()?.to_string();
+    let n = t.num()?;
+    let mut src = String::new();
+    if bits != "-" {
+        src.push_str(&format!("#[bits({bits})] "));
+    }
+    src.push_str("#[repr(u8)] enum E { ");
+    for _ in 0..n {
+        let ident = t.next()?.to_string();
+        let disc = t.next()?.to_string();
+        let display = t.next()?.to_string();
+        let nalts = t.num()?;
+        let mut alts = vec![];
+        for _ in 0..nalts {
+            alts.push(lit_tok(t.next()?)?);
+        }
+        if display != "-" {
+            let cp: u32 = display.parse().map_err(|_| Fail::BadOp("display".into()))?;
+            let ch = char::from_u32(cp).ok_or(Fail::BadOp("display cp".into()))?;
+            src.push_str(&format!("#[display({:?})] ", ch));
+        }
+        if !alts.is_empty() {
+            src.push_str(&format!("#[alt({})] ", alts.join(", ")));
+        }
+        if disc == "-" {
+            src.push_str(&format!("{ident}, "));
+        } else {
+            src.push_str(&format!("{ident} = {}, ", lit_tok(&disc)?));
+        }
+    }
+    src.push('}');
+    Ok(src)
+}
+
+fn pat_value(p: &str) -> Option<u64> {
+    let p = p.trim().replace('_', "");
+    let p = p.trim_end_matches("u8").to_string();
+    if let Some(b) = p.strip_prefix("0b") {
+        return u64::from_str_radix(b, 2).ok();
+    }
+    if let Some(h) = p.strip_prefix("0x") {
+        return u64::from_str_radix(h, 16).ok();
+    }
+    if p.starts_with("b'") {
+        let l: syn::LitByte = syn::parse_str(&p).ok()?;
+        return Some(l.value() as u64);
+    }
+    p.parse::<u64>().ok()
+}
+
+pub fn derive_query(t: &mut Toks) -> R<String> {
+    use crate::derive_src::codec::{parse_variants, parse_width};
+    let src = decl_source(t)?;
+    let e: syn::ItemEnum = syn::parse_str(&src).map_err(|e| Fail::BadOp(format!("syn: {e}")))?;
+    let decl = crate::decls::enum_decl(&e);
+    let pv = catch_unwind(std::panic::AssertUnwindSafe(|| parse_variants(&e.variants).map_err(|_| ())));
+    let v = match pv {
+        Ok(Ok(v)) => v,
+        Ok(Err(())) => return Ok("deriveerr".into()),
+        Err(_) => return Ok("derivepanic".into()),
+    };
+    let attrs = e.attrs.clone();
+    let maxd = v.max_discriminant;
+    let w = match catch_unwind(move || parse_width(&attrs, maxd).map_err(|_| ())) {
+        Ok(Ok(w)) => w,
+        Ok(Err(())) => return Ok("deriveerr".into()),
+        Err(_) => return Ok("derivepanic".into()),
+    };
+    // variant ident -> discriminant
+    let mut disc_of: HashMap<String, u64> = HashMap::new();
+    for var in decl["variants"].as_array().unwrap() {
+        disc_of.insert(var["ident"].as_str().unwrap().to_string(), var["disc"].as_u64().unwrap_or(999));
+    }
+    let variant_of = |rhs: &str| -> Option<u64> {
+        let id = rhs.rsplit("::").next()?.trim().trim_end_matches(')').trim().to_string();
+        disc_of.get(&id).copied()
+    };
+    let arms = |ts: &Vec<proc_macro2::TokenStream>| -> Vec<(u64, u64)> {
+        ts.iter()
+            .filter_map(|a| {
+                let s = a.to_string();
+                let (p, r) = s.split_once("=>")?;
+                Some((pat_value(p)?, variant_of(r)?))
+            })
+            .collect()
+    };
+    let bit_arms = arms(&v.alts);
+    let char_arms = arms(&v.from_chars);
+    let table = |arms: &Vec<(u64, u64)>| -> String {
+        (0..256u64)
+            .map(|b| match arms.iter().find(|a| a.0 == b) {
+                Some(a) => format!("{:02x}", a.1),
+                None => "--".to_string(),
+            })
+            .collect()
+    };
+    let chars: Vec<String> = v
+        .to_chars
+        .iter()
+        .filter_map(|a| {
+            let s = a.to_string();
+            let (l, r) = s.split_once("=>")?;
+            Some(format!("{:02x}:{:02x}", variant_of(l)?, pat_value(r)?))
+        })
+        .collect();
+    let items: Vec<String> = v.idents.iter().map(|i| format!("{:02x}", disc_of.get(&i.to_string()).copied().unwrap_or(999))).collect();
+    Ok(format!("w={w} items={} tfb={} tfa={} chars={}", items.concat(), table(&bit_arms), table(&char_arms), chars.join(",")))
 }
